@@ -63,6 +63,21 @@ impl InlineCache {
     }
 
     pub(crate) fn set(&self, shape: &Shape, slot: Slot) {
+        #[cfg(boa_verif)]
+        {
+            if !crate::verif::inline_caches_on() {
+                return;
+            }
+            crate::verif::ic_event(|| {
+                format!(
+                    "set {:x} {:x} {} {}",
+                    std::ptr::from_ref(self) as usize,
+                    shape.to_addr_usize(),
+                    slot.index,
+                    slot.attributes.bits()
+                )
+            });
+        }
         if self.megamorphic.get() {
             return;
         }
@@ -87,6 +102,36 @@ impl InlineCache {
     ///
     /// Opportunistically cleans up stale weak shape references during lookup.
     pub(crate) fn get(&self, shape: &Shape) -> Option<(Shape, Slot)> {
+        #[cfg(boa_verif)]
+        {
+            if !crate::verif::inline_caches_on() {
+                return None;
+            }
+            let result = self.get_inner(shape);
+            crate::verif::ic_event(|| {
+                let live = self.entries.borrow().len();
+                match &result {
+                    Some((_, slot)) => format!(
+                        "get {:x} {:x} hit {} {} live={live}",
+                        std::ptr::from_ref(self) as usize,
+                        shape.to_addr_usize(),
+                        slot.index,
+                        slot.attributes.bits()
+                    ),
+                    None => format!(
+                        "get {:x} {:x} miss live={live}",
+                        std::ptr::from_ref(self) as usize,
+                        shape.to_addr_usize()
+                    ),
+                }
+            });
+            return result;
+        }
+        #[cfg(not(boa_verif))]
+        self.get_inner(shape)
+    }
+
+    fn get_inner(&self, shape: &Shape) -> Option<(Shape, Slot)> {
         if self.megamorphic.get() {
             return None;
         }
